@@ -86,6 +86,56 @@ def text_keys_reach_the_lookup_unfiltered(repo):
     raise SpecDrift("_check_new_inventories not found")
 
 
-undecided("get_missing_parent_inventories and the earlier steps of GCRepositoryPackCollection._check_new_inventories (the checks that refuse an incomplete write group "
+undecided("the earlier steps of GCRepositoryPackCollection._check_new_inventories (the checks that refuse an incomplete write group "
           "after push/fetch into a stacked repository): not under contract in this build; exercised natively by the replay scenarios")
 undecided("that the text keys enumerated through the external CHK difference are all texts that differ from the parents; everything over the smart server")
+
+# ---- get_missing_parent_inventories: what a write group into a stacked repository still lacks. An empty answer (the write group may be
+#      committed) is given only if every parent inventory of the added revisions is present locally, or - when texts are checked - every
+#      text that the revisions at the edge introduce is present
+RKEY = Tup(BYTES)
+IKEY = Tup(STR, BYTES)
+MissingParents = ufunc("MissingParents", SetS(RKEY))       # parents of the added revisions that are not themselves among the revisions present
+LocalInvKeys = ufunc("LocalInvKeys", SetS(RKEY))           # inventories present in the repository itself (no fallbacks)
+ReferrerKeys = ufunc("ReferrerKeys", Seq(Tup(RKEY)))       # (key,) of the added revisions that still refer to a missing parent inventory
+Altered = ufunc("Altered", MapS(BYTES, SetS(BYTES)))       # file id -> text versions introduced by those revisions
+PresentTexts = ufunc("PresentTexts", SetS(TKEY))           # text keys that texts.get_parent_map finds
+VFR = cls("VersionedFileRepository", fields={"_format": ANY, "revisions": ANY, "inventories": ANY, "texts": ANY})
+attr_sort("*.supports_external_lookups", BOOL)
+InWG = ufunc("InWG", BOOL)
+exceptions(AssertionError="Exception")
+assumed("self.is_in_write_group", pure=True, no_raise=True, returns=lambda c: InWG())
+assumed("self.revisions._index.get_missing_parents", pure=True, no_raise=True, returns=lambda c: MissingParents())
+assumed("parents.discard", pure=True, no_raise=True, result=NONE,
+        note="parents.discard(NULL_REVISION) on a set of key TUPLES never matches anything (a no-op in the real code too)")
+assumed("unstacked_inventories.get_parent_map", pure=True, result=MapS(RKEY, ANY), no_raise=True,
+        ensures=lambda c: forall([RKEY], lambda k: In(k, c.result) == And(In(k, LocalInvKeys()), In(k, c.parents))),
+        note="asked for the keys of `parents` (each key[-1:] is the key itself for one-element keys): answers for those it holds")
+assumed("key_deps.satisfy_refs_for_keys", result=NONE, no_raise=True)
+assumed("key_deps.get_referrers", pure=True, no_raise=True, returns=lambda c: ReferrerKeys())
+assumed("self.fileids_altered_by_revision_ids", pure=True, returns=lambda c: Altered(), raises={"Exception": None})
+assumed("self.texts.get_parent_map", pure=True, result=MapS(TKEY, ANY),
+        ensures=lambda c: forall([TKEY], lambda k: In(k, c.result) == And(In(k, c.args[0]), In(k, PresentTexts()))), raises={"Exception": None})
+
+
+def still_missing(k):
+    return And(In(k, MissingParents()), Not(In(k, LocalInvKeys())))
+
+
+def all_introduced_texts_present():
+    return forall([BYTES, BYTES], lambda f, v: Implies(And(In(f, Altered()), In(v, Altered()[f])), In(TKEY.mk(f, v), PresentTexts())))
+
+
+target("breezy/bzr/vf_repository.py::VersionedFileRepository.get_missing_parent_inventories", params=dict(check_for_missing_texts=BOOL),
+       locals=dict(parents=SetS(RKEY), missing_texts=SetS(TKEY)), result=SetS(IKEY), modifies=[],
+       loops={1: loop(r"for file_id, version_ids in file_ids\.items\(\)", done="done", inv=lambda c: And(
+           forall([RKEY], lambda k: In(k, c.parents) == still_missing(k)),
+           forall([TKEY], lambda k: In(k, c.missing_texts) == And(In(k[0], c.done), In(k[0], Altered()), In(k[1], Altered()[k[0]])))))},
+       ensures={"nothing_missing_only_when_complete": lambda c: Implies(
+                    And(attr(c.self._format, "supports_external_lookups"), c.result == SetS(IKEY).empty()),
+                    Or(forall([RKEY], lambda k: Not(still_missing(k))), And(c.old.check_for_missing_texts, all_introduced_texts_present()))),
+                "what_is_reported_is_a_missing_parent_inventory": lambda c: forall([IKEY], lambda k: Implies(
+                    In(k, c.result), And(k[0] == lift("inventories"), still_missing(RKEY.mk(k[1])))))},
+       raises={"AssertionError": lambda c: Not(InWG()), "Exception": True},
+       canary=lambda c: c.result == SetS(IKEY).empty(),
+       note="the gate before committing a write group into a stacked repository")
